@@ -241,7 +241,7 @@ class ProgGen:
         for _ in range(rng.randint(0, 8)):
             r = rng.random()
             if r < 0.7:
-                chars.append(rng.choice('abcXYZ 019!#$%&()*+,-./:<=>?@[]^_{|}~'))
+                chars.append(rng.choice('abcXYZ 019!#$%&()*+,-./:;;<=>?@[]^_{|}~'))
             else:
                 chars.append(rng.choice(['\\n', '\\t', '\\r', '\\0', '\\\\', '\\x41', '\\x7f', '\\xff', '\\x00', '\\a', '\\101', '\\7',
                                          '\\' + q, '\\q', '\\e']))
